@@ -324,3 +324,8 @@ def run(ctx: Ctx, rep: Report, tier: str):
     from rules.common import event_application_writes_through
     _alias(rep, ["C17.tmp"], "C17.A14", "every notification restarts the ageing clock: update_entry stamps the side changed whenever it is asked to, also when a change is already "
            "pending (C14.W11)", 1, lambda: (rep.rule("C17.tmp", "alias", 0), event_application_writes_through(ctx, rep, "C17.tmp")), keep=lambda i: i.key == "update_entry|mark_changed")
+    from rules.common import selection_loop_has_no_early_stop, per_side_tuples_are_indexed_in_order
+    rep.rule("C17.A15", "every eligible entry is eventually offered: the selection loop of SyncState.change has no break / early return", 1)
+    section(rep, lambda: selection_loop_has_no_early_stop(ctx, rep, "C17.A15"))
+    rep.rule("C17.A16", "the ageing interval is derived from BOTH providers' poll intervals: per-side pairs take element i from side i", 1)
+    section(rep, lambda: per_side_tuples_are_indexed_in_order(ctx, rep, "C17.A16"))
